@@ -72,6 +72,30 @@ def run(seeded, props):
     return 0
 
 
+def save_replay(seeded, pid, replay_dir):
+    """Keeps the first failing session of a detected change as seeded/<id>/replay.ndjson; bin/check
+    replays these sessions on every run of that property (a regression corpus: on the unchanged tree
+    they hold, on a tree that reintroduces the change they fail whatever the seed)."""
+    try:
+        names = sorted(n for n in os.listdir(replay_dir) if n.startswith(pid + '-'))
+    except OSError:
+        return
+    for n in names:
+        try:
+            line = open(os.path.join(replay_dir, n)).readline()
+            scn = json.loads(line)
+        except (ValueError, OSError):
+            continue
+        if not isinstance(scn, dict) or 'fam' not in scn:
+            continue
+        if len(line) > 3000000:
+            continue
+        scn['sid'] = 'seed-' + os.path.basename(seeded)
+        with open(os.path.join(seeded, 'replay.ndjson'), 'w') as f:
+            f.write(json.dumps(scn) + '\n')
+        return
+
+
 def run_scratch(seeded, props):
     """Like `run`, but on a scratch worktree of /repo and a scratch copy of the harness, so that
     /repo is never touched (several of these can run at once)."""
@@ -105,6 +129,8 @@ def run_scratch(seeded, props):
             lines = [l for l in r.stdout.splitlines() if l.startswith(('PASS', 'FAIL', 'TOOL-ERROR', '  failing clauses', 'NOTE'))]
             codes[p] = r.returncode
             print('%s %s exit=%d %s' % (os.path.basename(seeded), p, r.returncode, ' | '.join(lines[-3:])[:500]), flush=True)
+            if r.returncode == 1 and p == meta.get('property'):
+                save_replay(seeded, p, os.path.join(base, 'out', 'replay'))
         print(json.dumps(codes))
         return 0
     finally:
